@@ -113,7 +113,7 @@ def run(ctx):
     items = []
     for i, h in enumerate(hs):
         ats = fixed if i % 3 == 0 else pick_atoms(uni, rng)
-        items.append({"id": i, "ops": h, "vars": ["x", "y", "z"], "atoms": ats, "T": "T1" if i % 9 == 4 else None})
+        items.append({"id": i, "ops": h, "vars": ["x", "y", "z"], "atoms": ats, "T": "T1" if i % 9 == 4 else None, "edit": i % 18 == 4})
     nb = 32
     batches = [items[i::nb] for i in range(nb)]
     outs = forkrun.map_fresh("ptv.formexec", "observe_pool", [{"items": b} for b in batches])
